@@ -686,12 +686,17 @@ func Main(args []string) int {
 		lsame, ldiff := 0, 0
 		for k, m := range pairNodes {
 			j, okj := m["json-indent2"]
-			y, oky := m["yaml-block2"]
+			y, oky := m["yaml-block2-numkeys"]
 			if !okj || !oky {
 				continue
 			}
 			if sameNodes(j, y) {
 				lsame++
+			} else if len(j) == 1 && len(y) == 1 && (strings.HasPrefix(j[0], y[0]+"/") || strings.HasPrefix(y[0], j[0]+"/")) {
+				// one spelling names a node, the other only a node above it: not a choice between several faults (those
+				// are siblings or unrelated), the position got less precise in one spelling
+				ldiff++
+				r.Violate("position-less-precise-in-one-spelling", fmt.Sprintf("%s: the JSON spelling reports %s, the YAML spelling %s", k, j[0], y[0]), map[string]any{"case": k, "json_spelling_reports": j, "yaml_spelling_reports": y})
 			} else {
 				ldiff++
 				if ldiff <= 2 {
@@ -745,7 +750,7 @@ func Main(args []string) int {
 		}
 		var local []*mcase
 		// baseline: the unmutated document in both spellings (also gives the CPU reference)
-		for _, sn := range []string{"json-indent2", "yaml-block2"} {
+		for _, sn := range []string{"json-indent2", "yaml-block2-numkeys"} {
 			txt, spans := doctree.Emit(tree, doctree.StyleByName(sn))
 			local = append(local, &mcase{id: id + "|baseline|" + sn, doc: id, style: sn, text: txt, ix: buildIndex(tree, txt, spans), base: base, class: "baseline"})
 		}
@@ -836,7 +841,7 @@ func Main(args []string) int {
 			}
 			styles := []string{"json-indent2"}
 			if k%4 == 0 || replayAt != "" {
-				styles = append(styles, "yaml-block2")
+				styles = append(styles, "yaml-block2-numkeys")
 			}
 			k++
 			for _, sn := range styles {
